@@ -817,7 +817,18 @@ def sec_gates(ctx, rng, case):
         matrix_ok(cirq.resolve_parameters(g4, full), ref, "unrelated-then-full")
     # recursive chain through a gate, and resolver composition
     defs = _chain_defs(rng, env, names)
-    matrix_ok(cirq.resolve_parameters(g, mk_resolver(rng, defs)), ref, "chain-resolver")
+    # the chain reproduces env only up to rounding and x**y (x < 0) is discontinuous in y: the expected matrix is the
+    # catalogue matrix at the chain's own fixed point (out of the real domain there -> counted, not judged)
+    menv, looping, open_ = EV.fixed_point_env({k: (sympy.Symbol(v) if isinstance(v, str) else v) for k, v in defs.items()})
+    if looping or open_:
+        raise AssertionError("chain generator produced a loop")
+    try:
+        ref_chain = m.ref({s_: (float(menv[s_]) if s_ in menv else env[s_]) for s_ in env})
+    except EV.OutOfDomain:
+        ref_chain = None
+        ctx.reject("chain-fixed-point-out-of-real-domain")
+    if ref_chain is not None:
+        matrix_ok(cirq.resolve_parameters(g, mk_resolver(rng, defs)), ref_chain, "chain-resolver")
     S = sympy.Symbol
     r1 = {s: S(s + "_") * 2 for s in names}
     r2 = {s + "_": env[s] / 2 for s in names}
@@ -1216,6 +1227,16 @@ def sec_circuitop(ctx, rng, case):
                     expect = set().union(*[EV.free_names(mp[x]) if x in mp else {x} for x in expect]) if expect else set()
                 if (EV.free_names(e) if isinstance(e, sympy.Basic) else set()) != expect:
                     cancels = True
+                # sympy itself may cancel terms that the model's substitution keeps apart (-1.0*a + c with c -> a): compare
+                # the names sympy leaves after every step with the names the substitution is expected to leave
+                es, expect2 = p, EV.free_names(p)
+                for mp in substs:
+                    if isinstance(es, sympy.Basic):
+                        es = es.subs({sympy.Symbol(k_): (sympy.Symbol(v_) if isinstance(v_, str) else v_) for k_, v_ in mp.items()}, simultaneous=True)
+                    expect2 = set().union(*[EV.free_names(mp[x]) if x in mp else {x} for x in expect2]) if expect2 else set()
+                    left = {str(x) for x in es.free_symbols} if isinstance(es, sympy.Basic) else set()
+                    if left != expect2:
+                        cancels = True
     if cancels:
         ctx.event("circuit-op-substitution-cancels-symbols")
     outer = mk_resolver(rng, {k: env[k] for k in sorted(names)} if (rng.random() < 0.5 and not cancels) else dict(env))
@@ -1232,11 +1253,18 @@ def sec_circuitop(ctx, rng, case):
         return
     ok_rep = isinstance(r.repetitions, (int, np.integer)) and int(r.repetitions) == rep_val
     ctx.check(ok_rep, "circuit-op-resolved", "C10:circuit-op:repetitions", "repetitions %r, expected %d" % (r.repetitions, rep_val), **wit)
-    still = cirq.is_parameterized(r) or any(cirq.is_parameterized(o) for o in r.mapped_circuit(deep=True).all_operations())
+    unrolled = list(r.mapped_circuit(deep=True).all_operations())
+    if cancels:
+        # symbols that cancel inside a nested substitution (b -> c in b - c) leave a sympy number behind, which Cirq documents
+        # as parameterized (is_parameterized: "any instance of sympy.Basic ... covers sympy constants"); what must hold is
+        # that no *name* is left (the content comparison needs plain numbers and is skipped)
+        still = bool(cirq.parameter_names(r)) or any(cirq.parameter_names(o) for o in unrolled)
+    else:
+        still = cirq.is_parameterized(r) or any(cirq.is_parameterized(o) for o in unrolled)
     ctx.check(not still, "resolved-not-parameterized", ph_key("C10:still-parameterized:circuit-operation"),
               "CircuitOperation still parameterized after resolving every symbol: %s" % repr(r)[:400], **wit)
-    if ok_rep and not still:
-        got_ops = list(r.mapped_circuit(deep=True).all_operations())
+    if ok_rep and not still and not cancels:
+        got_ops = unrolled
         want_ops = []
         for _ in range(rep_val):
             want_ops.extend(flat)
